@@ -17,7 +17,8 @@ META = dict(
     level_claimed=dict(
         category="proof",
         text="Lean 4 theorems over all task graphs and all schedules of an LTS model of Runner.Run / TaskManager.Create+Wait / "
-             "RunLoop / pip:run: body_after_waits, no_body_after_failed_prereq, commands_in_order_stop_at_first_failure, "
+             "RunLoop / pip:run: body_after_waits, no_body_after_failed_prereq, commands_in_order_stop_at_first_failure (a failing position - returned error, unknown command name, truncated "
+             "text - stops the body and the task does not close ok), failure_only_where_scripted, "
              "accepted_graph_acyclic, all_finish (deadlock freedom + a decreasing measure), manager_wait_returns, "
              "manager_error_iff_some_failed, reject_leaves_latch (pre-fix model never returns from Wait), and a trace monitor "
              "proved to decide exactly the declarative property (accepts_iff) that every model run has (model_runs_accepted). "
